@@ -143,6 +143,12 @@ func runC01(r *hk.Run) {
 	// (d) connection-level events: the retry must carry the body
 	runEventCells(r, rng.Fork())
 
+	// (o) re-execution with settings changed in between; (p) marshalled value x content types at two levels;
+	// (q) HTTP/3 connection lost after the request was read
+	runReexecCells(r, rng.Fork())
+	runMarshalCtCells(r, rng.Fork())
+	runH3LossCells(r, rng.Fork())
+
 	// (m) Alt-Svc: the same requests over TCP first and over the learned HTTP/3 endpoint later
 	runAltSvcCells(r, rng.Fork())
 
